@@ -343,6 +343,7 @@ package trace
 //@   ensures !old(p.isShutdown.v != 0) && old(registered(procs(p), sp)) ==> len(procs(p)) == old(len(procs(p))) - 1
 //@   loop#1 invariant (stopOnce == nil && (forall q in 0 .. $k : spss[q].sp != sp)) || (stopOnce != nil && 0 <= idx && idx < $k && spss[idx] == stopOnce && spss[idx].sp == sp)
 //@   loop#1 invariant forall q in 0 .. len(spss) : spss[q] != nil && spss[q] == old(procs(p)[q])
+//@   loop#1 invariant stopOnce == nil ==> (forall q in 0 .. $k : old(procs(p)[q].sp) != sp)
 
 // Register: new list = old list followed by a fresh state for sp
 //@ func (p *TracerProvider) RegisterSpanProcessor(sp SpanProcessor)
